@@ -28,6 +28,8 @@
 (*   tr   upper triangular, n = 3 entries {-1,0,1,2}; n = 4 diagonal       *)
 (*        {1,2,-1} (unit and non-unit), strict upper part {-1,0,1}         *)
 (*   spd  A = L L' for integer lower triangular L with positive diagonal   *)
+(*   sym  symmetric (mostly INDEFINITE) matrices: the tr members mirrored  *)
+(*        into the lower triangle (inputs of the Cholesky option variants) *)
 (***************************************************************************)
 EXTENDS Rat, FiniteSets, SequencesExt, Json
 
@@ -175,6 +177,10 @@ TrMat(n, idx) ==
           ELSE Vals3[Digit(idx \div 81, 3, UpPos(4, i, j)) + 1]])])
 TrCount(n) == IF n = 3 THEN Pow(4, 6) ELSE 81 * Pow(3, 6)
 
+(* symmetric family: upper triangle of the tr member, mirrored *)
+SymMat(n, idx) == LET U == TrMat(n, idx)
+                  IN TLCEval([i \in 1..n |-> TLCEval([j \in 1..n |-> IF i <= j THEN U[i][j] ELSE U[j][i]])])
+
 (* integer Cholesky factor: positive diagonal {1,2} (n=1: 1..3), strict lower part *)
 LoPos(n, i, j) == UpPos(n, j, i)          \* i > j
 SpdL(n, idx) ==
@@ -194,6 +200,7 @@ MatOf(c) ==
     [] c.fam = "p4"  -> P4Mat(c.idx)
     [] c.fam = "q4"  -> Q4Mat(c.idx)
     [] c.fam = "tr"  -> TrMat(c.n, c.idx)
+    [] c.fam = "sym" -> SymMat(c.n, c.idx)
     [] c.fam = "spd" -> LET L == SpdL(c.n, c.idx) IN MulII(L, Transpose(L))
 
 (* seeded slices *)
@@ -211,6 +218,7 @@ CasesOfBlock(b) ==
   \cup CasesOfFam("pd", 3, PdCount, 1, b)
   \cup CasesOfFam("p4", 4, P4Count, 1, b) \cup CasesOfFam("q4", 4, P4Count, 1, b)
   \cup CasesOfFam("tr", 3, TrCount(3), Mod4 \div 8, b) \cup CasesOfFam("tr", 4, TrCount(4), Mod4, b)
+  \cup CasesOfFam("sym", 3, TrCount(3), Mod4 \div 8, b) \cup CasesOfFam("sym", 4, TrCount(4), Mod4, b)
   \cup CasesOfFam("spd", 1, SpdCount(1), 1, b) \cup CasesOfFam("spd", 2, SpdCount(2), 1, b)
   \cup CasesOfFam("spd", 3, SpdCount(3), 1, b) \cup CasesOfFam("spd", 4, SpdCount(4), Mod4 \div 4, b)
 
@@ -253,7 +261,7 @@ CaseRecord(c) ==
       adj == Adj(A)
       codes == SetToSeq(MaskCodes(n, c.idx))
   IN [k |-> "mat", fam |-> c.fam, n |-> n, idx |-> c.idx, a |-> A, det |-> det,
-      sing |-> SingClass(A, det), tri |-> IsUpperTri(A), spd |-> (c.fam = "spd"),
+      sing |-> SingClass(A, det), tri |-> IsUpperTri(A), spd |-> (c.fam = "spd"), sym |-> IsSymmetric(A),
       L |-> IF c.fam = "spd" THEN SpdL(n, c.idx) ELSE <<>>,
       inv |-> IF det = 0 THEN <<>> ELSE RM2(InvFrom(adj, det)),
       kap |-> IF det = 0 THEN <<0, 1>> ELSE R2(KappaFrom(A, adj, det)),
@@ -285,6 +293,7 @@ ContractHolds(c) ==
      /\ c.fam = "spd" => (det > 0 /\ IsSymmetric(A) /\ IsLowerTri(SpdL(n, c.idx))
                           /\ det = Det(SpdL(n, c.idx)) * Det(SpdL(n, c.idx)))
      /\ c.fam = "tr" => IsUpperTri(A)
+     /\ c.fam = "sym" => IsSymmetric(A)
 
 Root == [fam |-> "root", n |-> 0, idx |-> 0]
 Block == [fam |-> "blk", n |-> 0, idx |-> 0]
